@@ -1,4 +1,6 @@
 import AgdbStorage.Props.C01
+import AgdbStorage.Props.C01b
+import AgdbStorage.Props.C04
 open AgdbStorage
 #print axioms C01_recover_every_crash_point
 #print axioms C01_drop
@@ -8,3 +10,16 @@ open AgdbStorage
 #print axioms C01_zero_len_counterexample
 #print axioms C01_grow_counterexample
 #print axioms C01_zero_len_counterexample_newest_first
+-- nested transactions (Props/C01b.lean) and the link from Storage operations to well-formed calls (Props/C04.lean)
+#print axioms C01b_txn_balanced
+#print axioms C01b_flush_outermost
+#print axioms C01b_commit
+#print axioms C01b_begin
+#print axioms C01b_error_unchanged
+#print axioms C01b_never_fails
+#print axioms C01b_replace_missing
+#print axioms C01b_replace_error_txn
+#print axioms C01b_replace_stuck_txn_counterexample
+#print axioms C01b_moveAt_early_error
+#print axioms C01b_moveAt_error_txn
+#print axioms C04_calls_wellformed
